@@ -263,6 +263,8 @@ fn ep_pkgdb(b: &[u8]) {
         }
         open_and_walk(&root);
         let _ = std::fs::remove_dir_all(root.with_extension("linked-target"));
+    } else if s.starts_with("pkgdb removed") {
+        vanish_once(&root, s.contains("replaced"));
     } else if let Some(n) = s.strip_prefix("pkgdb with ").and_then(|m| m.split(' ').next()).and_then(|m| m.parse::<usize>().ok()) {
         if std::fs::create_dir_all(root.join("pkg-1.0")).is_ok() {
             for f in ["+COMMENT", "+CONTENTS", "+DESC"] {
@@ -947,25 +949,52 @@ fn open_and_walk(root: &Path) {
     // a database path that is a plain file, and one that does not exist
     let _ = PkgDB::open(&root.join("plainfile-1")).map(|db| db.count());
     let _ = PkgDB::open(&root.join("does-not-exist")).map(|db| db.count());
-    // the database goes away (or turns into a plain file) between open() and the iteration
-    for replace in [false, true] {
-        let gone = root.with_extension("going");
-        let _ = std::fs::remove_dir_all(&gone);
-        let _ = std::fs::remove_file(&gone);
-        if std::fs::create_dir_all(gone.join("pkg-1.0")).is_ok() {
-            for f in ["+COMMENT", "+CONTENTS", "+DESC"] {
-                let _ = std::fs::write(gone.join("pkg-1.0").join(f), b"x\n");
-            }
-            if let Ok(db) = PkgDB::open(&gone) {
-                let _ = std::fs::remove_dir_all(&gone);
-                if replace {
-                    let _ = std::fs::write(&gone, b"now a file");
-                }
-                let _ = db.count();
-            }
+}
+
+/// Build a one-package database at `gone`, open it, take it away (or replace it by a plain file)
+/// and poll the handle a bounded number of times.
+fn vanish_once(gone: &Path, replace: bool) {
+    let _ = std::fs::remove_dir_all(gone);
+    let _ = std::fs::remove_file(gone);
+    let built = (|| -> std::io::Result<()> {
+        std::fs::create_dir_all(gone.join("pkg-1.0"))?;
+        for f in ["+COMMENT", "+CONTENTS", "+DESC"] {
+            std::fs::write(gone.join("pkg-1.0").join(f), b"x\n")?;
         }
-        let _ = std::fs::remove_dir_all(&gone);
-        let _ = std::fs::remove_file(&gone);
+        Ok(())
+    })();
+    if built.is_err() {
+        mc_core::run::machinery_fault("cannot build the scratch package database");
+    }
+    if let Ok(db) = PkgDB::open(gone) {
+        let _ = std::fs::remove_dir_all(gone);
+        if replace {
+            let _ = std::fs::write(gone, b"now a file");
+        }
+        // a handle that keeps reporting errors is fine; it is polled a bounded number of times
+        let _ = db.take(64).count();
+    }
+    let _ = std::fs::remove_dir_all(gone);
+    let _ = std::fs::remove_file(gone);
+}
+
+/// The database goes away, or turns into a plain file, between open() and the iteration: whatever
+/// the handle does then (ends, or reports errors), it does so without panicking and every poll
+/// returns promptly.
+fn check_db_vanishing(t: &mut Tally, scratch: &Path) {
+    for replace in [false, true] {
+        t.evals += 1;
+        t.validated += 1;
+        t.states += 1;
+        t.transitions += 2;
+        let gone = scratch.join(if replace { "vanish-replaced" } else { "vanish-removed" });
+        let what = format!("pkgdb removed{} between open and iteration", if replace { " and replaced by a plain file" } else { "" });
+        journal(&format!("I {} {}\n", ep_index("pkgdb"), hex(what.as_bytes())));
+        let r = watched(&what, 2000, || vanish_once(&gone, replace));
+        match r {
+            Ok(()) => t.outcome("pkgdb/vanishing-ok"),
+            Err(m) => t.violation(Violation::new("pkgdb-vanishing", json!({"replaced_by_a_file": replace}), json!("returns normally"), json!(format!("panic: {}", m)), "iterating a package database that went away after open() panicked")),
+        }
     }
 }
 
@@ -1158,6 +1187,9 @@ fn run_item(p: &Plan, idx: usize, t: &mut Tally, scratch: &Path) {
         Item::PkgdbStrays { n } => {
             t.transitions += *n as u64;
             t.nontrivial += 1;
+            if *n == 4_000 {
+                check_db_vanishing(t, scratch);
+            }
             check_db_many_strays(t, scratch, *n);
         }
         Item::Pkgdb { lo, hi } => {
@@ -1341,6 +1373,15 @@ fn replay_main(run: &'static Run, doc: &Value) -> ! {
         check_db(&mut t2, &scratch, c["layout_mask"].as_u64().unwrap_or(0) as u32);
         let _ = std::fs::remove_dir_all(&scratch);
         run.finish_replay(v, t2.violations.into_iter().next());
+    }
+    if doc["kind"] == "pkgdb-vanishing" {
+        let scratch = run.scratch_dir();
+        let mut t = Tally::new();
+        check_db_vanishing(&mut t, &scratch);
+        let mut t2 = Tally::new();
+        check_db_vanishing(&mut t2, &scratch);
+        let _ = std::fs::remove_dir_all(&scratch);
+        run.finish_replay(t.violations.into_iter().next(), t2.violations.into_iter().next());
     }
     if doc["kind"] == "pkgdb-strays" {
         let n = c["stray_files"].as_u64().unwrap_or(4000) as usize;
